@@ -521,6 +521,13 @@ pub fn check_main<P: Prop>(p: &P, tier: Tier) -> Outcome {
         eprintln!("HARNESS-ERROR cannot write evidence {evpath:?}: {e}");
         return Outcome { exit: 2 };
     }
+    // generated games are valid by construction: one that from_root rejects is lost coverage
+    // (C05 also feeds contract-edge trees, which may be rejected)
+    if p.id() != "C05" {
+        if let Some(n) = agg.skips.get("game-rejected") {
+            println!("coverage-warning: {n} generated (valid by construction) games were rejected by the library and could not be judged");
+        }
+    }
     // coverage warnings (never a failure)
     for (k, v) in &agg.counters {
         if (k.starts_with("fault_") || k.starts_with("probe_")) && *v == 0 {
